@@ -9,8 +9,9 @@ import (
 )
 
 // CLI plumbing cut by two overlay rewrites in cmd-merge-cars.go (see registry):
-//   paths := c.Args().Slice()   ->  paths := verifC16MergePaths()
-//   var outputFile string       ->  var outputFile string = verifC16MergeOut()
+//
+//	paths := c.Args().Slice()   ->  paths := verifC16MergePaths()
+//	var outputFile string       ->  var outputFile string = verifC16MergeOut()
 var (
 	c16MergeIn  []string
 	c16MergeOut string
